@@ -46,7 +46,7 @@ def standin_estimates(tier, seed):
     violations, evals, distinct, samples = [], 0, set(), []
     kinds = [("logistic", dict(source_dimension=2, dimension=3)), ("logistic", dict(source_dimension=0, dimension=3)),
              ("linear", dict(source_dimension=1, dimension=3)), ("shared_speed_logistic", dict(source_dimension=1, dimension=3)),
-             ("logistic", dict(dimension=1, source_dimension=0, n_ft=1))]
+             ("logistic", dict(dimension=1, source_dimension=0, n_ft=1)), ("shared_speed_logistic", dict(source_dimension=0, dimension=3))]
     n_rep = 4 if tier == "quick" else 40
     for kind, kw in kinds:
         kw = dict(kw)
@@ -93,6 +93,22 @@ def standin_estimates(tier, seed):
                     if not (np.diff(got[o], axis=0) >= -1e-7).all():
                         violations.append(dict(key=f"{kind}: logistic output decreasing with age", ages=ages, got=got.tolist()))
                         break
+            if violations:
+                break
+            # dict input returned as a table: one row per requested (individual, age), in the requested order
+            with quiet():
+                tab = model.estimate(age_lists, ips, to_dataframe=True)
+            evals += 1
+            want_rows = [(sid, a) for sid, ages in age_lists.items() for a in ages]
+            got_rows = [(i_, float(t_)) for i_, t_ in tab.index]
+            if got_rows != [(i_, float(t_)) for i_, t_ in want_rows]:
+                violations.append(dict(key=f"{kind}: estimate(dict, to_dataframe=True) does not list the requested (individual, age) pairs in the requested order",
+                                       requested=[list(map(str, x)) for x in want_rows], returned=[list(map(str, x)) for x in got_rows]))
+                break
+            for (sid, a), vals in zip(want_rows, tab.to_numpy(dtype=float)):
+                if not np.allclose(vals, closed_form(model, kind, raw[sid], [a])[0], rtol=2e-4, atol=2e-5):
+                    violations.append(dict(key=f"{kind}: estimate(dict, to_dataframe=True) row ({sid}, {a}) does not hold that individual's value at that age"))
+                    break
             if violations:
                 break
             # MultiIndex input: exactly the requested rows, in the requested order
